@@ -616,9 +616,11 @@ def _method_to_json(f: types.MethodType) -> Dict[str, str]:
   """Converts a method to a JSON dict."""
   type_name = _type_name(f)
   if isinstance(f.__self__, type):
+    # Name the method through the class it is bound to, which is not
+    # necessarily the class that defines it.
     return {
         JSONConvertible.TYPE_NAME_KEY: 'method',
-        'name': type_name
+        'name': f'{_type_name(f.__self__)}.{f.__name__}'
     }
   raise ValueError(f'Cannot convert instance method {type_name!r} to JSON.')
 
